@@ -9,20 +9,21 @@ CHECKS = {
     "C01": dict(
         text="Theorem C01_verdict (Coq, every graph, every strict rule, no bound): the model of Rule.assert_applies returns Pass exactly when the "
              "documented semantics (Model/SpecRule.v) hold and Fail otherwise, never an error (C01_total); the three public graph queries are "
-             "proved equal to the documented comprehensions on pairwise unrelated filters. Tie to /repo: every case evaluated by the real Rule API "
+             "proved equal to the documented comprehensions on pairwise unrelated filters; the four worklist loops of breadth_first_searches.py, transcribed in Model/Worklist.v, are proved to terminate and to return exactly "
+             "the comprehension model's imports on every well-formed graph for any filters (C01_loop_*), and every graph the library builds is well-formed (C01_built_graph_wellformed). Tie to /repo: every case evaluated by the real Rule API "
              "and the extracted model (verdict compared), exhaustive over import relations of three 5-node trees in thorough, plus random/scanned trees; "
-             "strict rules are additionally checked against an independent executable reading of the documented semantics.",
+             "strict rules are additionally checked against an independent executable reading of the documented semantics; the three public query functions are called directly "
+             "and their result maps compared with the comprehension model and with the worklist model.",
         note="Theorems cover the 12 verb x direction x except shapes with name / sub-modules-of filters; the two 'anything' aliases are tied to "
-             "'should_not ... except the subjects' by C12_alias on the model and by correspondence. Graph searches are modelled at the comprehension level "
-             "(worklist loops not modelled; compared through verdicts and report lines). Trusted: Coq kernel, extraction, driver, harness.",
-        technique="Coq proof (query characterisation lemmas + bucket analysis) + model/implementation correspondence",
+             "'should_not ... except the subjects' by C12_alias on the model and by correspondence. The rule evaluation uses the comprehension-level queries; the worklist layer is proved equal to them and both are compared with the real query functions. Trusted: Coq kernel, extraction, driver, harness.",
+        technique="Coq proof (query characterisation lemmas + bucket analysis + worklist-loop refinement) + model/implementation correspondence",
         design="5/C01"),
     "C03": dict(
         text="Theorems C03_report_sound / C03_report_complete / C03_nothing_unrelated (Coq, all graphs, all strict rules): the model's report lines are exactly "
              "the rule's violating set (forbidden imports between subject and object, not-allowed imports between subject and something else, one "
              "'does not import' line per subject with exactly its missing objects). Tie to /repo: str(AssertionError) parsed back to abstract lines and "
              "compared as a set with the model's and with the documented violating set, same case space as C01.",
-        note="English rendering (verb forms, quoting) is parsed by the harness, not verified. Searches at comprehension level (see C01).",
+        note="English rendering (verb forms, quoting) is parsed by the harness, not verified. Searches: comprehension model proved equal to the worklist loops (see C01).",
         technique="Coq proof + model/implementation correspondence on parsed report lines",
         design="5/C03"),
     "C11": dict(
@@ -39,7 +40,7 @@ CHECKS = {
         text="Theorems (Coq, EVERY graph and EVERY rule incl. related subjects/objects, regexes, batches): duality, negation and negation_except (single subject/object), "
              "both should_only decompositions, the 'anything' alias (definitional rewrite, verdict and report), four monotonicity laws under adding an import. "
              "Tie to /repo: each law evaluated directly on the real code (2-3 real assert_applies calls per instance), every evaluation also compared with the model.",
-        note="Trusted: Coq kernel, extraction, driver, harness. Searches at comprehension level (see C01).",
+        note="Trusted: Coq kernel, extraction, driver, harness. Searches: comprehension model proved equal to the worklist loops (see C01).",
         technique="Coq proof (laws of the model) + laws evaluated on the implementation + correspondence",
         design="5/C12"),
     "C13": dict(
@@ -131,7 +132,7 @@ CHECKS = {
         text="Theorem C07_conformance (Coq, every graph, every well-formed diagram, both modes): DiagramRule passes exactly when for every ordered pair of distinct components a imports b iff a->b is drawn, and (should-only) no component "
              "with outgoing arrows imports anything outside its drawn targets and itself - proved by showing each generated rule strict and applying C01_verdict; C07_aggregates (all violated rules' lines, none lost); C07_base_module (definitional). "
              "Tie to /repo: random relations x near-conforming graphs x both modes x both naming options on real .puml files vs documented conformance (python oracle), aggregated message vs each violated pairwise rule, model compared.",
-        note="Trusted: Coq kernel, extraction, driver, harness. Depends on C01's comprehension-level search model.",
+        note="Trusted: Coq kernel, extraction, driver, harness. Depends on C01's search model (comprehensions, proved equal to the worklist loops).",
         technique="Coq proof (reduction to C01 per generated rule) + correspondence on real diagram files",
         design="5/C07"),
     "C09": dict(
